@@ -1404,38 +1404,53 @@ private:
       CRAB_LOG("inter-subsume", if (call_contexts.empty()) {
 	  crab::outs() << "[INTER] There is no call contexts stored.\n";
 	});
-      for (unsigned i = 0, e = call_contexts.size(); i < e; ++i) {
-        // If the call is recursive then we cannot use exact
-        // subsumption. Otherwise, it's very likely that subsumption
-        // never succeeds. Apart from not having reusing, it will
-        // create problems during the checking phase which assumes
-        // that all function calls are always cached.
-        const bool use_exact_subsumption =
-            (!recursive_call_being_analyzed && m_ctx.exact_summary_reuse());
+      // The checker re-executes the statements of a block from the
+      // invariant at its entry but a statement can have now a more
+      // precise effect than when the block was analyzed (e.g., a
+      // recursive call was replaced with top and now the summary of
+      // the function is available) so the calling context of a later
+      // callsite of the block might not be equal to any stored
+      // one. In checking phase, if exact subsumption fails we try
+      // again with inclusion: it is always sound to reuse a summary
+      // whose precondition includes the calling context.
+      const unsigned num_rounds =
+	(m_ctx.get_is_checking_phase() && m_ctx.exact_summary_reuse()) ? 2 : 1;
+      for (unsigned round = 0;
+	   round < num_rounds && !call_context_already_seen; ++round) {
+        for (unsigned i = 0, e = call_contexts.size(); i < e; ++i) {
+          // If the call is recursive then we cannot use exact
+          // subsumption. Otherwise, it's very likely that subsumption
+          // never succeeds. Apart from not having reusing, it will
+          // create problems during the checking phase which assumes
+          // that all function calls are always cached.
+          const bool use_exact_subsumption =
+              (!recursive_call_being_analyzed && m_ctx.exact_summary_reuse() &&
+               round == 0);
 
-        CRAB_LOG("inter-subsume",
-		 if (use_exact_subsumption) {
-		   crab::outs() << "Exact ";
-		 } else {
-		   crab::outs() << "Approximate ";		   
-		 }
-                 crab::outs() << "checking if\n"
-		              << callee_entry << "\nis subsumed by summary "
-		              << i << "\n";
-                 call_contexts[i]->write(crab::outs()); crab::outs() << "\n";);
-	
-        if (call_contexts[i]->is_subsumed(callee_entry,
-                                          use_exact_subsumption)) {
-          CRAB_LOG("inter-subsume", crab::outs() << "succeed!\n";);
-          CRAB_VERBOSE_IF(1, get_msg_stream()
-                                 << "++ Skip redundant analysis of function  "
-                                 << cs.get_func_name() << "\n";);
+          CRAB_LOG("inter-subsume",
+                   if (use_exact_subsumption) {
+                     crab::outs() << "Exact ";
+                   } else {
+                     crab::outs() << "Approximate ";
+                   }
+                   crab::outs() << "checking if\n"
+                                << callee_entry << "\nis subsumed by summary "
+                                << i << "\n";
+                   call_contexts[i]->write(crab::outs()); crab::outs() << "\n";);
 
-          callee_exit = call_contexts[i]->get_post_summary();
-          call_context_already_seen = true;
-          break;
-        } else {
-          CRAB_LOG("inter-subsume", crab::outs() << "failed!\n";);
+          if (call_contexts[i]->is_subsumed(callee_entry,
+                                            use_exact_subsumption)) {
+            CRAB_LOG("inter-subsume", crab::outs() << "succeed!\n";);
+            CRAB_VERBOSE_IF(1, get_msg_stream()
+                                   << "++ Skip redundant analysis of function  "
+                                   << cs.get_func_name() << "\n";);
+
+            callee_exit = call_contexts[i]->get_post_summary();
+            call_context_already_seen = true;
+            break;
+          } else {
+            CRAB_LOG("inter-subsume", crab::outs() << "failed!\n";);
+          }
         }
       }
     } else {
